@@ -10,6 +10,7 @@ Instances: stateless modules, "previous solution as initial guess" caches with a
 StaticCondensation `X`, ElementOperation's lazily expanded operator).
 -/
 import PymotoVerif.Core.Component
+import Mathlib.LinearAlgebra.Matrix.NonsingularInverse
 
 namespace PymotoVerif.C03
 open PymotoVerif.Component
@@ -216,6 +217,57 @@ def guessHistFree {κ : Type} (k0 : κ) (solve : κ → ι → κ × ο) (IsSol 
   resp_inv := fun _ _ _ => ⟨trivial, trivial⟩
   sens_out := fun _ _ _ _ _ => rfl
   sens_inv := fun _ _ _ _ _ => ⟨trivial, trivial⟩
+
+
+/-- caches that influence BOTH the response and the sensitivity computation but only through quantities that are
+    uniquely determined by the current inputs / seeds (LinSolve + LDAWrapper: previous solution as initial guess, stored
+    solution/right-hand-side bases, cached factorisation and symmetry flags — every answer is THE solution of a
+    non-singular system, see C06 `ldas_correct`, C07 `linsolve_eq`) -/
+def uniqueHistFree {κ : Type} (k0 : κ) (solve : κ → ι → κ × ο) (adj : κ → ι → ω → κ × γ)
+    (IsSol : ι → ο → Prop) (IsAdj : ι → ω → γ → Prop)
+    (huniq : ∀ x y y', IsSol x y → IsSol x y' → y = y')
+    (huniqA : ∀ x w g g', IsAdj x w g → IsAdj x w g' → g = g')
+    (hsol : ∀ c x, IsSol x (solve c x).2) (hadj : ∀ c x w, IsAdj x w (adj c x w).2) :
+    HistFree (σ := κ) ⟨k0, solve, adj⟩ where
+  Inv := fun _ => True
+  For := fun _ _ => True
+  R := fun x => (solve k0 x).2
+  S := fun x w => (adj k0 x w).2
+  inv_init := trivial
+  resp_out := fun c x _ => huniq x _ _ (hsol c x) (hsol k0 x)
+  resp_inv := fun _ _ _ => ⟨trivial, trivial⟩
+  sens_out := fun c x w _ _ => huniqA x w _ _ (hadj c x w) (hadj k0 x w)
+  sens_inv := fun _ _ _ _ _ => ⟨trivial, trivial⟩
+
+section linsolve
+open Matrix
+variable {n k : Type} [Fintype n] [DecidableEq n] {F : Type} [Field F]
+
+/-- the solution of a non-singular system is unique (any number of right-hand sides) -/
+theorem solution_unique (A : Matrix n n F) (hA : IsUnit A.det) (B X Y : Matrix n k F)
+    (hX : A * X = B) (hY : A * Y = B) : X = Y := by
+  have h : A⁻¹ * (A * X) = A⁻¹ * (A * Y) := by rw [hX, hY]
+  rwa [← Matrix.mul_assoc, ← Matrix.mul_assoc, Matrix.nonsing_inv_mul A hA, Matrix.one_mul, Matrix.one_mul] at h
+
+/-- inputs of LinSolve: a non-singular matrix and a block of right-hand sides -/
+abbrev LinIn (n k F : Type) [Fintype n] [DecidableEq n] [Field F] :=
+  { p : Matrix n n F × Matrix n k F // IsUnit p.1.det }
+
+/-- **LinSolve is history independent for ANY cache and ANY solver that returns solutions**: whatever the solver
+    derives from its cache (initial guess, LDAS data bases, reused factorisation, stored flags), as long as each
+    response solves `A X = B` and each adjoint solve `Aᵀ Λ = W`, every protocol-respecting history gives the results of a
+    fresh module (instantiate `history_independent` with this contract). -/
+def linsolveHistFree {κ : Type} (k0 : κ)
+    (solve : κ → LinIn n k F → κ × Matrix n k F) (adj : κ → LinIn n k F → Matrix n k F → κ × Matrix n k F)
+    (hsol : ∀ c x, x.1.1 * (solve c x).2 = x.1.2)
+    (hadj : ∀ c x W, x.1.1ᵀ * (adj c x W).2 = W) :
+    HistFree (σ := κ) ⟨k0, solve, adj⟩ :=
+  uniqueHistFree k0 solve adj (fun x X => x.1.1 * X = x.1.2) (fun x W L => x.1.1ᵀ * L = W)
+    (fun x X Y hX hY => solution_unique x.1.1 x.2 x.1.2 X Y hX hY)
+    (fun x W L L' hL hL' => solution_unique x.1.1ᵀ (by rw [Matrix.det_transpose]; exact x.2) W L L' hL hL')
+    hsol hadj
+
+end linsolve
 
 /-! ## non-vacuity: a concrete cached component and a concrete history -/
 example :
